@@ -18,7 +18,7 @@ package qrAlgorithm
 
 /* -------------------------------------------------------------------------- */
 
-//import   "fmt"
+import   "fmt"
 import   "math"
 
 import . "github.com/pbenner/autodiff"
@@ -135,8 +135,16 @@ func qrAlgorithmSymmetric(inSitu *InSitu, epsilon float64) (Matrix, Matrix, erro
     Z = Z_
   }
 
-  for p, q := 0, 0; q < n; {
+  // every step reduces an off-diagonal element at least quadratically for
+  // finite well-scaled input; the limit is only reached when intermediate
+  // results leave the floating-point range (NaN, overflow, underflow)
+  maxSteps := 100*(n+1)
 
+  for p, q, step := 0, 0, 0; q < n; step++ {
+
+    if step > maxSteps {
+      return nil, nil, fmt.Errorf("QR algorithm did not converge within %d steps", maxSteps)
+    }
     for i := 0; i < n-1; i++ {
       t11 := T.At(i  ,i  ).GetFloat64()
       t21 := T.At(i+1,i  ).GetFloat64()
